@@ -150,11 +150,12 @@ def blocks_of_flat(bins):
 
 
 def oracle_prune(edges, maxlen, pruned):
-    """reading of 'no coarse row is split or duplicated': the pruned edges are a strictly increasing
-    sub-sequence of the coarse-row edges that starts at 0 and ends at nnz"""
+    """reading of 'no coarse row is split or duplicated': the pruned edges are a non-decreasing
+    selection of the coarse-row edges that starts at 0 and ends at nnz (a repeated edge only makes an
+    empty work unit, which is harmless; strictness is a matter of the model correspondence)"""
     if not pruned or pruned[0] != 0 or pruned[-1] != edges[-1]:
         return False
-    if any(a >= b for a, b in zip(pruned[:-1], pruned[1:])):
+    if any(a > b for a, b in zip(pruned[:-1], pruned[1:])):
         return False
     return all(e in edges for e in pruned)
 
